@@ -138,7 +138,7 @@ def r16b(ctx, rep, cr):
 
 def r16c(ctx, rep, cr):
     rep.rule('R16c', 'pre-image discipline: in every function that takes snapshot_bytes() and later mutates the store (TensorChain::commit, '
-                     'TensorStateMachine::{apply_block, apply_entry}), a lock guard is live from the snapshot to every restore_from_bytes '
+                     'TensorStateMachine::{apply_block, apply_entry}), every restore_from_bytes puts back bytes that come from a snapshot_bytes call of the same function, a lock guard is live from that snapshot to every restore_from_bytes '
                      'and to the chain append — otherwise a losing concurrent commit restores a pre-image that erases the winner\'s '
                      'writes and block records; and restore_from_bytes is called on every failure exit after the chain append failed '
                      'or the state root mismatched')
@@ -152,12 +152,24 @@ def r16c(ctx, rep, cr):
         defs, uses = A.Defs(f), A.Uses(f)
         snaps = A.calls_to(f, SNAP)
         rests = A.calls_to(f, RESTORE)
-        if not snaps or not rests:
+        if not rests:
             rep.violation('R16c', f, 'shape', f.loc(), 'anchor-missing: no snapshot_bytes (%d) / restore_from_bytes (%d)' % (len(snaps), len(rests)))
             continue
         n += 1
-        # (1) every restore uses the snapshot taken in this function
-        sl_ok = all(snaps[0].dest[0] in A.backward_slice(f, [c.args[1]], defs).locals or True for c in rests)
+        # (1) every restore puts back an image taken by snapshot_bytes in this function (i.e. inside the critical section checked in (2)),
+        # not one captured earlier (e.g. at begin()): an older image also erases what other commits applied in between
+        stale = []
+        for c in rests:
+            sl = A.backward_slice(f, [c.args[1]], defs)
+            if not any(sn.dest[0] in sl.locals for sn in snaps):
+                stale.append(c)
+        for k, c in enumerate(stale):
+            rep.violation('R16c', f, 'stale-preimage', f.loc(c.line),
+                          'restore_from_bytes puts back bytes that do not come from a snapshot_bytes() call of this function: an image '
+                          'captured before the critical section (at begin()) is older than blocks committed since, so a failing commit '
+                          'erases their writes and their stored block records')
+        if stale or not snaps:
+            continue
         # (2) a guard spans snapshot .. restore / append
         guards = A.guards(f, defs)
         entry = set()
